@@ -109,6 +109,11 @@ type preludeDest struct {
 }
 
 func processPrelude() {
+	defer func() {
+		if p := recover(); p != nil {
+			panic(fmt.Sprintf("zog panicked in an unrelated, valid execution that ran before / after this case on the same object pools (process prelude): %v", p))
+		}
+	}()
 	var d preludeDest
 	if errs := preludeSchema.Parse(map[string]any{"user": map[string]any{"name": "ab", "tags": []any{"x"}}, "age": 3}, &d); errs != nil {
 		z.Issues.CollectMap(errs)
